@@ -11,7 +11,10 @@ use crate::local::CoroutineLocal;
 use crate::park::Park;
 use crate::scheduler::get_scheduler;
 use crate::sync::AtomicOption;
+#[cfg(not(kani))]
 use generator::{Generator, Gn};
+#[cfg(kani)]
+use crate::verif_shim::gen::{Generator, Gn};
 
 ////////////////////////////////////////////////////////////////////////////////
 // Coroutine framework types
@@ -535,3 +538,7 @@ pub(crate) fn run_coroutine(mut co: CoroutineImpl) {
         }
     }
 }
+
+#[cfg(kani)]
+#[path = "/verif/harness/may/coroutine_impl.rs"]
+mod verif_kani;
